@@ -691,10 +691,15 @@ class Interp:
             t = self.R.type_of(e, self.R.scope(fn))
             return self._default_for_type(t)
         if isinstance(e, ast.JoinedStr):
-            if self.on_fstring is not None:
-                for part in e.values:
-                    if isinstance(part, ast.FormattedValue):
-                        self.on_fstring(part, self.ev(part.value, st, fn, depth), st, fn)
+            for part in e.values:
+                if isinstance(part, ast.FormattedValue):
+                    pv = self.ev(part.value, st, fn, depth)  # evaluated for its effects on the hooks (arithmetic inside f-strings)
+                    if self.on_fstring is not None:
+                        self.on_fstring(part, pv, st, fn)
+                    if isinstance(part.format_spec, ast.JoinedStr):
+                        for sp in part.format_spec.values:
+                            if isinstance(sp, ast.FormattedValue):
+                                self.ev(sp.value, st, fn, depth)
             return ConstV("<str>")
         if isinstance(e, ast.Lambda):
             lf = M.func_of_node.get(id(e))
